@@ -317,8 +317,167 @@ fn wrong_kinds(bad: &mut Vec<(Case, bool)>) {
     }
 }
 
+// A random history of reads and writes on one list of 0..300 elements,
+// followed step by step on a Vec; the run ends at the first operation outside
+// the domains (which must be a reported error after the output so far).
+#[derive(Clone, PartialEq)]
+enum El { I(i64), S(u8) }
+
+fn el_print(e: &El, in_list: bool) -> String {
+    match e {
+        El::I(v) => v.to_string(),
+        El::S(b) => { let _ = in_list; (*b as char).to_string() },
+    }
+}
+
+fn els_print(v: &[El]) -> String {
+    fmt_list(&v.iter().map(|e| el_print(e, true)).collect::<Vec<_>>())
+}
+
+fn history_case(t: &mut sdmodel::tape::Tape, ctx: &Ctx) -> Option<(Case, bool)> {
+    let lens = [0i64, 1, 2, 3, 5, 8, 17, 33, 63, 64, 65, 66, 100, 127, 128, 129, 130, 200, 257, 300];
+    let n0 = lens[t.pick(lens.len())];
+    let mut model: Vec<El> = (0..n0).map(|k| El::I(k * 3 + 1)).collect();
+    let mut src = match t.pick(3) {
+        0 => format!("xs := {}\n", if n0 == 0 { "[]".to_string() } else { format!("[{}]", model.iter().map(|e| el_print(e, true)).collect::<Vec<_>>().join(", ")) }),
+        1 => format!("xs := []\nfor [_, k] in 0 .. {n0} {{\n    xs += [k * 3 + 1]\n}}\n"),
+        _ => format!("xs := 0 .. {n0}\nfor [i, k] in xs {{\n    xs[i] = k * 3 + 1\n}}\n"),
+    };
+    let mut out = String::new();
+    let mut failed = false;
+    let mut long_range = false;
+    let steps = 2 + t.pick(10);
+    let mut fresh = 1000i64;
+    for _ in 0..steps {
+        let len = model.len() as i64;
+        // Mostly valid positions, sometimes one off either end.
+        let pos = |t: &mut sdmodel::tape::Tape, hi: i64| -> i64 { if t.chance(1, 12) { [-1, hi + 1][t.pick(2)] } else { t.range(0, hi.max(0)) } };
+        match t.pick(9) {
+            0 => {
+                let i = pos(t, len - 1);
+                src.push_str(&format!("print(xs[{i}])\n"));
+                if i < 0 || i >= len { failed = true; } else { out.push_str(&format!("{}\n", el_print(&model[i as usize], false))); }
+            },
+            1 => {
+                let a = pos(t, len);
+                let b = if t.chance(1, 8) { pos(t, len) } else { (a + t.range(0, 70)).min(len) };
+                let (sa, sb) = (if a == 0 && t.chance(1, 2) { String::new() } else { a.to_string() }, if b == len && t.chance(1, 2) { String::new() } else { b.to_string() });
+                src.push_str(&format!("print(xs[{sa}:{sb}])\n"));
+                if a < 0 || b > len || a > b { failed = true; } else { out.push_str(&els_print(&model[a as usize..b as usize])); }
+            },
+            2 => {
+                let i = pos(t, len - 1);
+                fresh += 1;
+                src.push_str(&format!("xs[{i}] = {fresh}\n"));
+                if i < 0 || i >= len { failed = true; } else { model[i as usize] = El::I(fresh); }
+            },
+            3 | 4 | 5 => {
+                // Range assignment from a list literal, a range expression, a
+                // string, or a slice of xs itself.
+                let a = pos(t, (len - 1).max(0));
+                let w = [1i64, 2, 3, 7, 31, 63, 64, 65, 70, 100, 128, 129, 150][t.pick(13)];
+                let b = if t.chance(1, 10) { pos(t, len) } else { (a + w).min(len) };
+                let want = (b - a).max(0);
+                let given = if t.chance(1, 10) { (want + [-1, 1][t.pick(2)]).max(0) } else { want };
+                let (sa, sb) = (if a == 0 && t.chance(1, 2) { String::new() } else { a.to_string() }, if b == len && t.chance(1, 2) { String::new() } else { b.to_string() });
+                let kind = t.pick(4);
+                let (rhs, vals): (String, Vec<El>) = match kind {
+                    0 => {
+                        let vals: Vec<El> = (0..given).map(|k| El::I(fresh + 1 + k)).collect();
+                        (format!("[{}]", vals.iter().map(|e| el_print(e, true)).collect::<Vec<_>>().join(", ")), vals)
+                    },
+                    1 => ((format!("{} .. {}", fresh + 1, fresh + 1 + given)), (0..given).map(|k| El::I(fresh + 1 + k)).collect()),
+                    2 => {
+                        let bytes: Vec<u8> = (0..given).map(|k| b'a' + ((k + fresh) % 26) as u8).collect();
+                        (format!("\"{}\"", String::from_utf8_lossy(&bytes)), bytes.into_iter().map(El::S).collect())
+                    },
+                    _ => {
+                        let c = if len - given >= 0 { t.range(0, len - given) } else { 0 };
+                        if c + given > len {
+                            ((format!("{} .. {}", fresh + 1, fresh + 1 + given)), (0..given).map(|k| El::I(fresh + 1 + k)).collect())
+                        } else {
+                            (format!("xs[{c}:{}]", c + given), model[c as usize..(c + given) as usize].to_vec())
+                        }
+                    },
+                };
+                fresh += given + 1;
+                src.push_str(&format!("xs[{sa}:{sb}] = {rhs}\n"));
+                // a < b is required by the statement of the property; a == b
+                // with an empty right-hand side is left to the catalogue.
+                if a < 0 || b > len || a >= b || given != want {
+                    if a == b && a >= 0 && b <= len && given == 0 {
+                        return None;
+                    }
+                    failed = true;
+                } else {
+                    if want > 64 { long_range = true; }
+                    for (k, v) in vals.into_iter().enumerate() {
+                        model[a as usize + k] = v;
+                    }
+                }
+            },
+            6 => {
+                let k = t.range(0, 3);
+                let vals: Vec<El> = (0..k).map(|j| El::I(fresh + 1 + j)).collect();
+                fresh += k + 1;
+                let lit = format!("[{}]", vals.iter().map(|e| el_print(e, true)).collect::<Vec<_>>().join(", "));
+                if t.chance(1, 2) { src.push_str(&format!("xs += {lit}\n")); } else { src.push_str(&format!("xs = xs + {lit}\n")); }
+                model.extend(vals);
+            },
+            7 => {
+                let k = t.range(0, len);
+                src.push_str(&format!("print((xs[:{k}] + xs[{k}:]) == xs)\n"));
+                out.push_str("true\n");
+            },
+            _ => {
+                let a = t.range(0, len);
+                let b = t.range(a, len);
+                let i = if b > a { t.range(0, b - a - 1) } else { 0 };
+                if b > a {
+                    src.push_str(&format!("print(xs[{a}:{b}][{i}] == xs[{}])\n", a + i));
+                    out.push_str("true\n");
+                }
+            },
+        }
+        if failed {
+            break;
+        }
+    }
+    if !failed {
+        src.push_str("print(xs)\n");
+        out.push_str(&els_print(&model));
+    }
+    ctx.label(if failed { "history ending in a reported error" } else { "history ending normally" });
+    if long_range { ctx.label("history with a range assignment wider than 64"); }
+    let mut e = if failed { Expect::err(out.into_bytes()) } else { Expect::ok(out.into_bytes()) };
+    if failed {
+        e.diag = vec![DiagPred::WellFormed{max_line: src.matches('\n').count() as u32 + 1}];
+    }
+    Some((Case{property: "C11".into(), kind: "history".into(), srcs: vec![src.into_bytes()], pred: Pred::Expect(e), note: format!("random history on a list of {n0}")}, n0 > 8 || failed))
+}
+
+// Elements that are functions read off objects keep behaving as the element
+// they came from after concatenation, slicing, indexing and range assignment.
+fn method_elements(ok: &mut Vec<Snippet>) {
+    let setup = "o1 := {\"tag\": \"a\", \"who\": fn () {\n    return this.tag\n}}\no2 := {\"tag\": \"b\", \"who\": o1.who}\ns := [o1.who, o2.who]\nt := [o2.who, o1.who, o2.who]\n";
+    for (body, expect) in [
+        ("u := s + t\nprint(u[0]())\nprint(u[1]())\nprint(u[2]())\nprint(u[3]())\nprint(u[4]())", "a\nb\nb\na\nb\n"),
+        ("u := s + t\nprint(u[2 + 1]() == t[1]())\nprint(u[1]() == s[1]())", "true\ntrue\n"),
+        ("u := s[:1] + s[1:]\nprint(u[0]())\nprint(u[1]())", "a\nb\n"),
+        ("u := t[1:3]\nprint(u[0]())\nprint(u[1]())", "a\nb\n"),
+        ("u := [] + t\nprint(u[0]())\nu += s\nprint(u[3]())\nprint(u[4]())", "b\na\nb\n"),
+        ("s[0:1] = t[0:1]\nprint(s[0]())\nprint(s[1]())", "b\nb\n"),
+        ("t[1:3] = s\nprint(t[0]())\nprint(t[1]())\nprint(t[2]())", "b\na\nb\n"),
+        ("s[1] = t[1]\nprint(s[1]())\nprint((s + s)[3]())", "a\na\n"),
+        ("u := [s.., t..]\nprint(u[4]())\nprint(u[0]())", "b\na\n"),
+        ("u := s\nu += t\nprint(u[2]())\nprint(u[3]())\nprint(s[1]())", "b\na\nb\n"),
+    ] {
+        ok.push(Snippet{body: format!("{setup}{body}"), expect: expect.to_string(), nontrivial: true, note: "lists of methods read off objects".into()});
+    }
+}
+
 pub fn run(ctx: &Ctx) {
-    ctx.set_rule("every list of length 0..N (distinct ints; one family with container elements) and every string from a pool incl. 2/3/4-byte characters x every index in [-2, len+2] x every bound pair in ([-2, len+2] + omitted)^2, reads, xs[i] = v, xs[a:b] = ys with |ys| in {b-a-1, b-a, b-a+1} as list and string, concatenation of all pairs, all 7 non-integer kinds as index / bound; oracle: the sequence laws written out in the harness. Non-trivial = an index or bound on an edge (0, len-1, len, a = b, omitted, -1, len+1) or a multi-byte string; distinct = distinct source texts");
+    ctx.set_rule("every list of length 0..N (distinct ints; one family with container elements) and every string from a pool incl. 2/3/4-byte characters x every index in [-2, len+2] x every bound pair in ([-2, len+2] + omitted)^2, reads, xs[i] = v, xs[a:b] = ys with |ys| in {b-a-1, b-a, b-a+1} as list and string, concatenation of all pairs, all 7 non-integer kinds as index / bound, lists of bound methods through every building operation, random histories (2..11 reads, element and range writes from literals / range expressions / strings / own slices, appends) on lists of 0..300 elements followed on a Vec; oracle: the sequence laws written out in the harness. Non-trivial = an index or bound on an edge (0, len-1, len, a = b, omitted, -1, len+1) or a multi-byte string; distinct = distinct source texts");
     ctx.replay_corpus(None);
     let maxlen = if ctx.tier == Tier::Quick { 5 } else { 8 };
     let mut lists = vec![];
@@ -357,7 +516,11 @@ pub fn run(ctx: &Ctx) {
     concat_laws(&mut ok, &lists);
     concat_laws(&mut ok, &strs);
     wrong_kinds(&mut bad);
+    method_elements(&mut ok);
     ctx.mark_exhaustive(&format!("lists of length 0..={maxlen} and {} strings x all indices / bound pairs / range assignments", strs.len()));
     judge_snippets(ctx, "sequence", &ok, 60);
     ctx.judge_all(bad, Via::Cli, None);
+    let n = ctx.n(20_000, 1_000_000);
+    let via = if ctx.tier == Tier::Quick { Via::Cli } else { Via::Fast };
+    ctx.proptest_tapes("histories", n, 200, via, None, |t| history_case(t, ctx));
 }
